@@ -7,13 +7,18 @@ patch="$1"; shift
 wt=$(mktemp -d /tmp/seedwt.XXXXXX); ev=$(mktemp -d /tmp/seedev.XXXXXX)
 git -C /repo worktree add --detach "$wt" HEAD >/dev/null 2>&1 || { echo "worktree failed"; exit 2; }
 # carry over uncommitted state of /repo? no: seeds are relative to HEAD
-if ! git -C "$wt" apply "$patch"; then echo "PATCH DOES NOT APPLY"; git -C /repo worktree remove --force "$wt"; rm -rf "$ev"; exit 2; fi
+if ! git -C "$wt" apply "$patch" 2>/dev/null; then
+  # the seed was made against the original snapshot; later fix: commits may touch neighbouring lines
+  if ! git -C "$wt" apply --3way "$patch" >/dev/null 2>&1 && ! (cd "$wt" && patch -p1 -F3 -s < "$patch"); then
+    echo "PATCH DOES NOT APPLY"; git -C /repo worktree remove --force "$wt"; rm -rf "$ev"; exit 2
+  fi
+fi
 cp /verif/known_findings.json "$ev"/ 2>/dev/null
 rc=0
 for id in "$@"; do
   out=$(VERIF_REPO="$wt" VERIF_DIR="$ev" /verif/bin/verifsa check "$id" 2>&1); r=$?
   echo "== $id exit=$r"
-  echo "$out" | grep -E "^\S+:[0-9]+: \[|CHECKER-FAILURE" | sed "s#$wt/##g" | cut -c1-300
+  echo "$out" | grep -E "^\S+: \[[A-Z0-9a-z]+\] |CHECKER-FAILURE" | sed "s#$wt/##g" | cut -c1-300
   [ $r -ne 0 ] && rc=1
 done
 git -C /repo worktree remove --force "$wt"; rm -rf "$ev"
